@@ -11,14 +11,14 @@ QUICK = {
             r"dispatch_h4_n2_(aa|ua|uu)_optimal_score", r"dispatch_h4_n2_(aa|uu)_greedy_idx", r"dispatch_h3_n3_ua_greedy_idx", r"repr_fuzzy_h2_n1", r"repr_exact_h2_n2", r"latin1_model_agrees_h"],
     "C02": [r"optimal_ascii_h4_n2_w0_4_path", r"optimal_ascii_h3_n2_w0_3_dflt", r"score_window_ascii_h4_n2_w0_4", r"score_window_ascii_h5_n3_w1_5", r"substring_ascii_h4_n3_path_cs",
             r"prefix_ascii_h4_n2_path", r"postfix_ascii_h5_n3_dflt", r"exact_ascii_h3_n3_dflt", r"prefix_uni_h4_n2_un", r"exact_uni_h3_n3_un", r"optimal_uni_h4_n2_w1_4_an",
-            r"fuzzy1_ascii_h5_path", r"fuzzy1_uni_h3_un_dflt", r"dispatch_h4_n2_(aa|ua)_optimal_idx", r"latin1_model_agrees_h"],
+            r"fuzzy1_ascii_h5_path", r"fuzzy1_uni_h3_un_dflt", r"dispatch_h4_n2_(aa|ua)_optimal_idx", r"substring_uni_h3_n1_(un|an)", r"substring_ascii_h3_n1_.*_cs", r"latin1_model_agrees_h"],
     "C03": [r"optimal_ascii_h4_n2_w1_4_dflt", r"optimal_ascii_h4_n2_w0_3_path", r"greedy_ascii_h4_n2_s1_g4", r"greedy_ascii_h5_n3_s0_g5", r"score_window_ascii_h4_n2_w1_3",
             r"score_window_ascii_h5_n3_w0_3", r"prefix_penalty_starts_h", r"exact_ascii_h4_n2_path", r"substring_ascii_h5_n3_dflt_cs",
             r"fuzzy1_ascii_h3_path", r"greedy_uni_h5_n3_s1_an", r"postfix_uni_h4_n2_an", r"repr_exact_h2_n2", r"latin1_model_agrees_h"],
     "C04": [r"optimal_ascii_h3_n2_w0_3_dflt", r"optimal_ascii_h4_n2_w0_4_path", r"optimal_ascii_h4_n2_w1_4_dflt", r"optimal_uni_h4_n2_w0_4_un", r"fuzzy1_ascii_h3_(dflt|path)",
             r"fuzzy1_ascii_h5_(dflt|path)", r"fuzzy1_uni_h3_un_(dflt|path)", r"fuzzy1_uni_h4_an_path", r"latin1_model_agrees_h"],
     "C05": [r"substring_ascii_h4_n2_dflt_ic", r"substring_ascii_h4_n[23]_(dflt|path)_cs", r"prefix_ascii_.*", r"postfix_ascii_.*", r"exact_ascii_h3_n3_dflt", r"exact_ascii_h4_n2_path",
-            r"substring_uni_h4_n2_an", r"prefix_uni_h4_n2_un", r"postfix_uni_h4_n2_an", r"exact_uni_h3_n3_un", r"latin1_model_agrees_h"],
+            r"substring_uni_h4_n2_an", r"substring_uni_h3_n1_un", r"prefix_uni_h4_n2_un", r"postfix_uni_h4_n2_an", r"exact_uni_h3_n3_un", r"latin1_model_agrees_h"],
     "C10": [r"layout_real_(ascii|char)", r"optimal_ascii_h4_n2_w0_3_path", r"optimal_ascii_h3_n2_w0_3_dflt", r"greedy_ascii_h5_n2_s0_g4", r"score_window_ascii_h5_n2_w0_5",
             r"prefilter_ascii_h4_n3", r"substring_ascii_h5_n3_dflt_cs", r"exact_ascii_h4_n3_path", r"prefix_penalty_starts_h",
             r"optimal_uni_h4_n2_w1_4_an", r"greedy_uni_h4_n2_s0_un", r"fuzzy1_uni_h4_an_dflt", r"prefilter_uni_h4_n2_an", r"latin1_model_agrees_h"],
